@@ -53,8 +53,10 @@ func (ps *PubSub) Subscribe(_ context.Context, conn *net.Conn, channels []string
 		// Check if channel with given name exists
 		// If it does, subscribe the connection to the channel
 		// If it does not, create the channel and subscribe to it
+		// Channels and patterns are separate namespaces: a pattern subscription never joins a regular
+		// channel of the same name, and vice versa.
 		channelIdx := slices.IndexFunc(ps.channels, func(channel *Channel) bool {
-			return channel.name == channels[i]
+			return channel.name == channels[i] && (channel.pattern != nil) == withPattern
 		})
 
 		if channelIdx == -1 {
@@ -143,39 +145,17 @@ func (ps *PubSub) Unsubscribe(_ context.Context, conn *net.Conn, channels []stri
 		}
 	}
 
-	// Unsubscribe from channels where the name exactly matches channel name.
-	// If unsubscribing from a pattern, also unsubscribe from all channel whose
-	// names exactly matches the pattern name.
+	// Unsubscribe from the channels (or, for PUNSUBSCRIBE, the patterns) whose name is exactly one of the
+	// names given. Unsubscribing from a pattern leaves the connection's regular channel subscriptions
+	// alone, even those whose names match the pattern.
 	for _, channel := range ps.channels { // For each channel in PubSub
+		if (channel.pattern != nil) != withPattern {
+			continue
+		}
 		for _, c := range channels { // For each channel name provided
 			if channel.name == c && channel.Unsubscribe(conn) {
 				unsubscribed[idx] = channel.name
 				idx += 1
-			}
-		}
-	}
-
-	// If withPattern is true, unsubscribe from channels where pattern matches pattern provided,
-	// also unsubscribe from channels where the name matches the given pattern.
-	if withPattern {
-		for _, pattern := range channels {
-			g := glob.MustCompile(pattern)
-			for _, channel := range ps.channels {
-				// If it's a pattern channel, directly compare the patterns
-				if channel.pattern != nil && channel.name == pattern {
-					if channel.Unsubscribe(conn) {
-						unsubscribed[idx] = channel.name
-						idx += 1
-					}
-					continue
-				}
-				// If this is a regular channel, check if the channel name matches the pattern given
-				if g.Match(channel.name) {
-					if channel.Unsubscribe(conn) {
-						unsubscribed[idx] = channel.name
-						idx += 1
-					}
-				}
 			}
 		}
 	}
